@@ -342,6 +342,24 @@ def ob_native_bd():
             if (not (np.abs((E - I)[np.ix_(live, live)]).max() <= 1e-6)):
                 return {"receive filter does not invert the effective channel": float(np.abs((E - I)[np.ix_(live, live)]).max()),
                         "scale": sc, "wf": wf}
+        # the module-level convenience functions are the same computation; the object can be re-used at another power
+        nv = float(10 ** rr.uniform(-3, 0)) * sc * sc
+        newH_f, Ms_f = bd.block_diagonalize(H, K, iPu, nv)
+        o2 = bd.BlockDiagonalizer(K, iPu, nv)
+        newH_o, Ms_o = o2.block_diagonalize(H)
+        if (not (np.abs(Ms_f - Ms_o).max() <= 1e-9 * max(1e-300, np.abs(Ms_o).max()))) or (not (np.abs(newH_f - H @ Ms_f).max() <= 1e-9 * np.abs(newH_f).max())):
+            return {"module-level block_diagonalize differs from the class": True}
+        Wf = bd.calc_receive_filter(newH_f)
+        Wo = o2.calc_receive_filter(newH_f)
+        if (not (np.abs(Wf - Wo).max() <= 1e-9 * max(1e-300, np.abs(Wo).max()))):
+            return {"module-level calc_receive_filter differs from the class": True}
+        new_iPu = float(iPu * rr.choice([0.25, 4.0]))
+        o2.iPu = new_iPu                                   # power sweep on one object
+        for wf in (False, True):
+            _, Ms2 = o2.block_diagonalize(H) if wf else o2.block_diagonalize_no_waterfilling(H)
+            pw = np.array([np.linalg.norm(Ms2[:, k * n:(k + 1) * n], 'fro') ** 2 for k in range(K)])
+            if (wf and (not (abs(pw.max() - new_iPu) <= 1e-9 * new_iPu))) or ((not wf) and (not (np.abs(pw - new_iPu).max() <= 1e-9 * new_iPu))):
+                return {"after iPu was changed on the object": pw.tolist(), "iPu now": new_iPu, "iPu at construction": iPu, "wf": wf}
         return None
     return bounded(gen(), check)
 
